@@ -1,0 +1,84 @@
+//go:build verif && (verif_all || verif_c07)
+// +build verif
+// +build verif_all verif_c07
+
+package gocql
+
+// Verification hooks for C07 (frames are written whole), round 2: the attribution of a coalesced flush observed through
+// the REAL flusher (writeContext -> writeFlusherImpl -> flush) instead of through a direct call of flush, so that the
+// hook does not depend on the signature or on the internal batching of the flusher: a refactoring of those builds, runs
+// and is judged. Add-only; nothing here is reachable without the build tags.
+
+import (
+	"context"
+	"errors"
+	"runtime"
+	"time"
+)
+
+type verifCutWriterG struct {
+	limit int64 // accepts this many bytes in total, then fails
+	n     int64
+	err   error
+}
+
+func (w *verifCutWriterG) SetWriteDeadline(time.Time) error { return nil }
+func (w *verifCutWriterG) Write(p []byte) (int, error) {
+	if w.n+int64(len(p)) <= w.limit {
+		w.n += int64(len(p))
+		return len(p), nil
+	}
+	k := int(w.limit - w.n)
+	if k < 0 {
+		k = 0
+	}
+	w.n += int64(k)
+	return k, w.err
+}
+
+// VerifCoalescerAttribution hands buffers of the given lengths, in order, to a writeCoalescer (built like
+// VerifNewManualWriter builds it) over a writer that accepts `limit` bytes in total and then fails, fires the flush
+// timer once, and returns what each writeContext call returned: n and whether err == nil.
+func VerifCoalescerAttribution(lens []int, limit int64) (ns []int, ok []bool) {
+	v, tick, _ := VerifNewManualWriter(&verifCutWriterG{limit: limit, err: errors.New("verif: cut")}, true, 0)
+	wc := v.w.(*writeCoalescer)
+	enq := make(chan struct{}, len(lens))
+	wc.testEnqueuedHook = func() { enq <- struct{}{} }
+	type res struct {
+		n   int
+		err error
+	}
+	out := make([]chan res, len(lens))
+	got := make([]*res, len(lens))
+	for i, l := range lens {
+		out[i] = make(chan res, 1)
+		go func(i, l int) {
+			n, err := v.w.writeContext(context.Background(), make([]byte, l))
+			out[i] <- res{n, err}
+		}(i, l)
+		select {
+		case <-enq: // the flusher has taken this buffer: the next one is queued behind it
+		case r := <-out[i]: // a writer that answers without queueing (the hook does not assume how the writer batches)
+			got[i] = &r
+		}
+	}
+	// watchdogs only: a flusher that never comes back to its select / never answers must not hang the harness
+	deadline := time.Now().Add(5 * time.Second)
+	for !tick() && time.Now().Before(deadline) { // the flusher is on its way back to its select
+		runtime.Gosched()
+	}
+	for i := range lens {
+		if got[i] == nil {
+			select {
+			case r := <-out[i]:
+				got[i] = &r
+			case <-time.After(5 * time.Second):
+				got[i] = &res{-1, errors.New("verif: no result")}
+			}
+		}
+		ns = append(ns, got[i].n)
+		ok = append(ok, got[i].err == nil)
+	}
+	v.Quit()
+	return
+}
